@@ -25,6 +25,10 @@ const c04NoKey = "-1"
 
 // The universe. Keys k0,k1,k2 and ids 0,1,2 get registered; kx and id 9 never. Fixed partial pairing:
 // k0<->0, k1<->1, k2 has no id, id 2 has no key.
+// c04K2: a key that contains a Unicode space (NO-BREAK SPACE) and whose part before it is another key: key lists of
+// include tags are separated by the ASCII blank only, so this is one name.
+const c04K2 = "k0\u00a0z"
+
 type c04Name struct {
 	ID  int
 	Key string
@@ -33,11 +37,11 @@ type c04Name struct {
 var c04Names = []c04Name{
 	{0, "k0"}, {1, "k1"}, // RegisterTpl
 	{0, c04NoKey}, {1, c04NoKey}, {2, c04NoKey}, // RegisterTplID
-	{-1, "k0"}, {-1, "k1"}, {-1, "k2"}, // RegisterTplKey
+	{-1, "k0"}, {-1, "k1"}, {-1, c04K2}, // RegisterTplKey
 }
 
 // Focused universe for the longer exhaustive tier: one paired template and one key-only template.
-var c04NamesFocus = []c04Name{{0, "k0"}, {0, c04NoKey}, {-1, "k0"}, {-1, "k2"}}
+var c04NamesFocus = []c04Name{{0, "k0"}, {0, c04NoKey}, {-1, "k0"}, {-1, c04K2}}
 
 const (
 	c04CollA = 4 // sources 4 and 5: the CRC-64 collision pair
@@ -54,7 +58,7 @@ var c04Src = map[int]string{
 var c04Out = map[string]int{"A!": 0, "B!b": 1, "C": 2, "!D": 3, "@@@@@@@@@@@@@@@@@": c04CollA, "D@@@@@@@G@@@@@@DA": c04CollB}
 
 // Include name lists (some entries are never registered).
-var c04IncLists = [][]string{{"k0", "k1"}, {"kx", "k2", "k0"}, {"kx"}, {"k1", "kx"}}
+var c04IncLists = [][]string{{"k0", "k1"}, {"kx", c04K2, "k0"}, {"kx"}, {"k1", "kx"}}
 
 func c04IncSrc(j int) string { return "{% include " + strings.Join(c04IncLists[j], " ") + " %}" }
 func c04IncKey(j int) string { return "inc" + strconv.Itoa(j) }
@@ -172,14 +176,14 @@ func (h *c04Hist) sweep(srcs []int) {
 	for _, s := range srcs {
 		h.parse(s)
 	}
-	for _, k := range []string{"k0", "k1", "k2", "kx"} {
+	for _, k := range []string{"k0", "k1", c04K2, "kx"} {
 		h.byKey(k)
 	}
 	for _, i := range []int{0, 1, 2, 9} {
 		h.byID(i)
 	}
 	h.fallback("k0", "k1")
-	h.fallback("k2", "k0")
+	h.fallback(c04K2, "k0")
 	h.fallback("kx", "k1")
 	h.fallback("kx", "kx")
 	for j := range c04IncLists {
@@ -592,11 +596,11 @@ func c04(r *Run) {
 			case x < 54:
 				h.parse(src)
 			case x < 66:
-				h.byKey([]string{"k0", "k1", "k2", "kx"}[r.Rng.Intn(4)])
+				h.byKey([]string{"k0", "k1", c04K2, "kx"}[r.Rng.Intn(4)])
 			case x < 78:
 				h.byID([]int{0, 1, 2, 9}[r.Rng.Intn(4)])
 			case x < 88:
-				ks := []string{"k0", "k1", "k2", "kx"}
+				ks := []string{"k0", "k1", c04K2, "kx"}
 				h.fallback(ks[r.Rng.Intn(4)], ks[r.Rng.Intn(4)])
 			default:
 				h.include(r.Rng.Intn(len(c04IncLists)))
